@@ -323,7 +323,7 @@ impl SigF {
 /// an owner (RFC 4035 §5.3.2: such an RRSIG must not be used; no octets are
 /// defined).
 fn ref_octets(s: &SigF, rrs: &[RawRR], open_lower: bool) -> Option<Vec<u8>> {
-    let (mut out, mut items) = ref_parts(s, rrs, open_lower, false)?;
+    let (mut out, mut items) = ref_parts(s, rrs, open_lower, false, false)?;
     // §6.3: RDATA as left-justified unsigned octet sequences; absence of an
     // octet sorts before a zero octet == slice order of [u8].
     items.sort();
@@ -337,9 +337,13 @@ fn ref_octets(s: &SigF, rrs: &[RawRR], open_lower: bool) -> Option<Vec<u8>> {
 /// RRSIG_RDATA prefix and the RR(i) items (canonical RDATA, whole item), in
 /// the order given, duplicates kept. `no_lower` builds the items WITHOUT the
 /// §6.2 lower-casing of RDATA names (only used to diagnose a mismatch).
-fn ref_parts(s: &SigF, rrs: &[RawRR], open_lower: bool, no_lower: bool) -> Option<(Vec<u8>, Vec<(Vec<u8>, Vec<u8>)>)> {
+fn ref_parts(s: &SigF, rrs: &[RawRR], open_lower: bool, no_lower: bool, signer_as_is: bool) -> Option<(Vec<u8>, Vec<(Vec<u8>, Vec<u8>)>)> {
     let mut out = s.head();
-    out.extend_from_slice(&name_wire(&lower_labels(&s.signer)));
+    if signer_as_is {
+        out.extend_from_slice(&name_wire(&s.signer));
+    } else {
+        out.extend_from_slice(&name_wire(&lower_labels(&s.signer)));
+    }
     let mut items: Vec<(Vec<u8>, Vec<u8>)> = Vec::new();
     for rr in rrs {
         let n = rr.owner.len();
@@ -371,38 +375,63 @@ fn ref_parts(s: &SigF, rrs: &[RawRR], open_lower: bool, no_lower: bool) -> Optio
 /// from the construction reproduces them (keeps violation classes narrow and
 /// the report useful). `test` says whether candidate octets are the library's.
 fn diagnose(s: &SigF, rrs: &[RawRR], open_lower: bool, test: &dyn Fn(&[u8]) -> bool) -> String {
-    for no_lower in [false, true] {
-        for keep_dups in [false, true] {
-            let Some((prefix, mut items)) = ref_parts(s, rrs, open_lower, no_lower) else { continue };
-            items.sort();
-            if !keep_dups {
-                items.dedup();
-            }
-            for p in perms(items.len()) {
-                let mut o = prefix.clone();
-                for &i in &p {
-                    o.extend_from_slice(&items[i].1);
+    for signer_as_is in [false, true] {
+        for no_lower in [false, true] {
+            for keep_dups in [false, true] {
+                let Some((prefix, mut items)) = ref_parts(s, rrs, open_lower, no_lower, signer_as_is) else { continue };
+                items.sort();
+                if !keep_dups {
+                    items.dedup();
                 }
-                if test(&o) {
-                    let mut v = Vec::new();
-                    if keep_dups && items.windows(2).any(|w| w[0] == w[1]) {
-                        v.push("duplicate-RRs-kept");
+                for p in perms(items.len()) {
+                    let mut o = prefix.clone();
+                    for &i in &p {
+                        o.extend_from_slice(&items[i].1);
                     }
-                    if no_lower {
-                        v.push("rdata-names-not-lower-cased");
+                    if test(&o) {
+                        let mut v = Vec::new();
+                        if signer_as_is {
+                            v.push("signer-name-not-lower-cased");
+                        }
+                        if keep_dups && items.windows(2).any(|w| w[0] == w[1]) {
+                            v.push("duplicate-RRs-kept");
+                        }
+                        if no_lower {
+                            v.push("rdata-names-not-lower-cased");
+                        }
+                        if p.windows(2).any(|w| w[0] > w[1]) {
+                            v.push("RRs-not-in-canonical-order");
+                        }
+                        if v.is_empty() {
+                            v.push("same-octets?");
+                        }
+                        return v.join("+");
                     }
-                    if p.windows(2).any(|w| w[0] > w[1]) {
-                        v.push("RRs-not-in-canonical-order");
-                    }
-                    if v.is_empty() {
-                        v.push("same-octets?");
-                    }
-                    return v.join("+");
                 }
             }
         }
     }
     "other".into()
+}
+
+/// Violation class for "octets are not the RFC ones". `component` is
+/// "signer" or "signed_data"; `ctxname` the signer entry point or the
+/// transformation after which it was seen.
+fn octets_class(component: &str, ctxname: &str, spec: &TypeSpec, d: &str) -> String {
+    let base = format!("C12|{component}|octets-not-RFC4034-3.1.8.1");
+    if d.contains("duplicate-RRs-kept") {
+        // other deviations on top of kept duplicates show up by themselves in
+        // the duplicate-free cases
+        format!("{base}|{ctxname}|duplicate-RRs-kept")
+    } else if d == "signer-name-not-lower-cased" {
+        format!("{base}|{d}")
+    } else if spec.lib_unknown_listed && d == "rdata-names-not-lower-cased" {
+        format!("{base}|RFC4034-6.2-listed-type-without-library-type|{d}")
+    } else if d == "other" && component == "signed_data" {
+        format!("{base}|other|after={ctxname}")
+    } else {
+        format!("{base}|type={}|{d}", spec.mn)
+    }
 }
 
 /// true when all RRs have the same owner (case-insensitively), type, class.
@@ -1332,15 +1361,7 @@ fn sign_case(env: &Env, c: &Case, l: &mut Local) -> Option<Signed> {
     let good: Vec<Vec<u8>> = refs.iter().filter(|r| ring_verify(key.alg, &key.pubkey, r, &sig.sig)).cloned().collect();
     if good.is_empty() {
         let d = diagnose(&sig, &rrs, false, &|o| ring_verify(key.alg, &key.pubkey, o, &sig.sig));
-        let class = if d.contains("duplicate-RRs-kept") {
-            // other deviations on top of kept duplicates show up by themselves
-            // in the duplicate-free cases
-            "C12|signer|signed-octets-not-RFC4034-3.1.8.1|duplicate-RRs-kept".to_string()
-        } else if spec.lib_unknown_listed && d == "rdata-names-not-lower-cased" {
-            format!("C12|signer|signed-octets-not-RFC4034-3.1.8.1|RFC4034-6.2-listed-type-without-library-type|{d}")
-        } else {
-            format!("C12|signer|signed-octets-not-RFC4034-3.1.8.1|type={}|{d}", spec.mn)
-        };
+        let class = octets_class("signer", en, spec, &d);
         env.ctx.violation(
             &class,
             &format!(
@@ -1559,11 +1580,7 @@ fn check_transforms(env: &Env, c: &Case, s: &Signed, l: &mut Local) {
         let octets_ok = s.refs.contains(&out.octets);
         if !octets_ok {
             let d = diagnose(&sig_t, &rrs_t, open_lower, &|o| o == &out.octets[..]);
-            let class = if spec.lib_unknown_listed && d == "rdata-names-not-lower-cased" {
-                format!("C12|signed_data|octets-not-RFC4034-3.1.8.1|RFC4034-6.2-listed-type-without-library-type|{d}")
-            } else {
-                format!("C12|signed_data|octets-not-RFC4034-3.1.8.1|type={}|{d}", spec.mn)
-            };
+            let class = octets_class("signed_data", &label, spec, &d);
             env.ctx.violation(
                 &class,
                 &format!(
@@ -1698,6 +1715,10 @@ fn fault_case(env: &Env, c: &Case, l: &mut Local) {
         }
     };
     let ref0 = &s.refs[0];
+    // ECDSA signatures are randomised and a damaged length octet can make a
+    // reader run into the signature octets: only the deterministic
+    // algorithms get the detailed rejected/unreadable split in the counters
+    let det = !matches!(key.alg, 13 | 14);
     let signer_len = name_wire(&s.sig.signer).len();
     let fault_json = |target: &str, bit: usize| json!({"part": "fault", "case": c.json(env), "target": target, "bit": bit});
     // ---- targets in the message: each RR entirely, the RRSIG RDATA
@@ -1751,6 +1772,7 @@ fn fault_case(env: &Env, c: &Case, l: &mut Local) {
                 }
             }
             // the library
+            env.stats.distinct(fnv(format!("{c:?}|{target}|{bit}").as_bytes()));
             let lib = guard(|| -> Result<LibOut, String> {
                 let (mut recs, lsig) = lib_vrecs(&m, n, true)?;
                 let lsig = lsig.unwrap();
@@ -1768,20 +1790,15 @@ fn fault_case(env: &Env, c: &Case, l: &mut Local) {
                     continue;
                 }
                 Ok(Err(_)) => {
-                    l.c(&format!("fault:{fclass}:unreadable-by-library"));
+                    l.c(&if det { format!("fault:{fclass}:unreadable-by-library") } else { format!("fault:{fclass}:rejected-or-unreadable(ecdsa)") });
                     continue;
                 }
                 Ok(Ok(o)) => o,
             };
-            env.stats.distinct(fnv(format!("{c:?}|{target}|{bit}").as_bytes()));
             if let (Some(ro), Some((rrs_f, sig_f))) = (&ref_oct, &rr) {
                 if !ro.contains(&out.octets) {
                     let d = diagnose(sig_f, rrs_f, open_lower, &|o| o == &out.octets[..]);
-                    let class = if spec.lib_unknown_listed && d == "rdata-names-not-lower-cased" {
-                        format!("C12|signed_data|octets-not-RFC4034-3.1.8.1|RFC4034-6.2-listed-type-without-library-type|{d}")
-                    } else {
-                        format!("C12|signed_data|octets-not-RFC4034-3.1.8.1|type={}|{d}", spec.mn)
-                    };
+                    let class = octets_class("signed_data", &format!("bit-flip-in-{fclass}"), spec, &d);
                     env.ctx.violation(
                         &class,
                         &format!("after flipping bit {bit} of {target} ({fclass}) signed_data = {} but the independent construction gives {}; diagnosis: {d}", hex(&out.octets), hex(&ro[0])),
@@ -1797,7 +1814,7 @@ fn fault_case(env: &Env, c: &Case, l: &mut Local) {
                         fault_json(target, bit),
                     );
                 }
-                (false, _, false) => l.c(&format!("fault:{fclass}:ref-unreadable,lib-rejects")),
+                (false, _, false) => l.c(&if det { format!("fault:{fclass}:ref-unreadable,lib-rejects") } else { format!("fault:{fclass}:rejected-or-unreadable(ecdsa)") }),
                 (true, Some(true), false) => {
                     let class = if spec.lib_unknown_listed && fclass == "rr-rdata" {
                         "C12|fault|rr-rdata|RFC4034-6.2-listed-type-without-library-type|name-case-bit-changes-verification".to_string()
@@ -1821,7 +1838,7 @@ fn fault_case(env: &Env, c: &Case, l: &mut Local) {
                     );
                 }
                 (true, Some(true), true) => l.c(&format!("fault:{fclass}:same-octets,verifies")),
-                (true, Some(false), false) => l.c(&format!("fault:{fclass}:altered,rejected")),
+                (true, Some(false), false) => l.c(&if det { format!("fault:{fclass}:altered,rejected") } else { format!("fault:{fclass}:rejected-or-unreadable(ecdsa)") }),
                 (true, None, v) => l.c(&format!("fault:{fclass}:open(NSEC case),{}", if v { "verifies" } else { "rejected" })),
             }
         }
@@ -2201,7 +2218,7 @@ fn main() {
         json!({
             "evaluations": total.evals,
             "distinct_nontrivial": env.stats.distinct_count(),
-            "rule": "distinct (hash of the case) among: signing cases where the signer produced an RRSIG that passed the field checks and verifies over the independent octets with ring; bit flips after which the library could still read the records (verification was decided); synthetic DNSKEY RDATA whose tag was compared; (key, owner, digest type) triples whose digest was compared",
+            "rule": "distinct (hash of the case) among: signing cases where the signer produced an RRSIG that passed the field checks and verifies over the independent octets with ring; every single-bit flip (case, target, bit) put before the library (its refusal to read the records or its verification result was compared with the expectation); synthetic DNSKEY RDATA whose tag was compared; (key, owner, digest type) triples whose digest was compared",
             "exhaustive": true,
             "bound": {
                 "types": env.types.iter().map(|t| t.mn).collect::<Vec<_>>(),
@@ -2218,8 +2235,9 @@ fn main() {
             "signed": sum("signer:signed:"),
             "verified_after_legit_transform": sum("verify:ok-after-legit-transform"),
             "faults_same_octets_must_verify": sum(":same-octets,verifies"),
-            "faults_altered_must_fail": sum(":altered,rejected"),
-            "faults_unreadable": sum(":unreadable-by-library") + sum(":ref-unreadable,lib-rejects"),
+            "faults_altered_must_fail": sum(":altered,rejected") + sum(":rejected-or-unreadable(ecdsa)") + sum(":unreadable-by-library") + sum(":ref-unreadable,lib-rejects"),
+            "faults_altered_rejected_by_verification(deterministic algorithms)": sum(":altered,rejected"),
+            "faults_unreadable(deterministic algorithms)": sum(":unreadable-by-library") + sum(":ref-unreadable,lib-rejects"),
             "counters": counters,
             "samples": env.stats.samples(),
         }),
